@@ -34,6 +34,9 @@ type C15Case struct {
 	// the working directory); "stdin" = -f - with the document on standard input; "long" = --config=PATH --target=T
 	// --packager=P; "alias-pkg" / "alias-p" = the command's aliases
 	Invoke string `json:"invoke,omitempty"`
+	// NoArch (name): the settings are the parsed ones with the architecture cleared by the library user (the parser
+	// would fill one in): ipk and archlinux take settings without one
+	NoArch bool `json:"no_arch,omitempty"`
 }
 
 var extOf = map[string]string{"deb": ".deb", "rpm": ".rpm", "apk": ".apk", "ipk": ".ipk", "archlinux": ".pkg.tar.zst"}
@@ -105,6 +108,42 @@ func init() {
 								return
 							}
 						}
+					}
+				}
+			}
+			// an epoch of zero (stated is stated), versions written with the epoch inside ("2:1.4.0", as rpm and dpkg print them)
+			for _, f := range Formats {
+				for _, ep := range []string{"0", "00"} {
+					for _, pre := range []string{"", "rc1"} {
+						for _, rel := range []string{"", "2"} {
+							c := baseMeta()
+							c.Epoch, c.Prerelease, c.Release = ep, pre, rel
+							if !yield(C15Case{Part: "name", Format: f, Cfg: c}) {
+								return
+							}
+						}
+					}
+				}
+				for _, v := range []string{"2:1.4.0", "1:2", "0:1.0.0"} {
+					for _, schema := range []string{"", "none"} {
+						for _, ep := range []string{"", "3"} {
+							c := baseMeta()
+							c.Version, c.Schema, c.Epoch, c.Release = v, schema, ep, "1"
+							if !yield(C15Case{Part: "name", Format: f, Cfg: c}) {
+								return
+							}
+						}
+					}
+				}
+			}
+			// no architecture stated at all (the two formats whose packagers take such settings): whatever the packager
+			// makes of it, the name and the metadata say the same
+			for _, f := range []string{"ipk", "archlinux"} {
+				for _, rel := range []string{"", "2"} {
+					c := baseMeta()
+					c.Release = rel
+					if !yield(C15Case{Part: "name", Format: f, Cfg: c, NoArch: true}) {
+						return
 					}
 				}
 			}
@@ -264,10 +303,12 @@ func archKeepChars(s string) string {
 }
 
 // nameFromMetadata applies the format's naming rule to decoded metadata.
-func nameFromMetadata(f string, pkg *pkgread.Pkg) string {
+// verbatim: the version is taken as the metadata states it (a configuration without an epoch whose version holds a
+// colon: the text before the colon is part of the version as written, in the name as in the metadata).
+func nameFromMetadata(f string, pkg *pkgread.Pkg, verbatim bool) string {
 	g := func(k string) string { v, _ := pkg.Field(k); return v }
 	noEpoch := func(v string) string {
-		if i := strings.IndexByte(v, ':'); i >= 0 {
+		if i := strings.IndexByte(v, ':'); i >= 0 && !verbatim {
 			return v[i+1:]
 		}
 		return v
@@ -314,6 +355,22 @@ func checkC15(env *engine.Env, ci any) engine.Outcome {
 	}
 	if c.Part == "name" {
 		alone, err := buildYAML(text, f)
+		if c.NoArch {
+			alone, err = nil, nil
+			if cfg0, e := parseYAML(text, nil); e != nil {
+				err = e
+			} else if i0, e := cfg0.Get(f); e != nil {
+				err = e
+			} else {
+				i0 = nfpm.WithDefaults(i0)
+				i0.Arch = ""
+				var b0 bytes.Buffer
+				p0, _ := nfpm.Get(f)
+				if err = p0.Package(i0, &b0); err == nil {
+					alone = b0.Bytes()
+				}
+			}
+		}
 		out.Transitions++
 		if err != nil {
 			viol("name:build-error:"+f, "packaging failed: %v", err)
@@ -330,6 +387,9 @@ func checkC15(env *engine.Env, ci any) engine.Outcome {
 			return out
 		}
 		info = nfpm.WithDefaults(info)
+		if c.NoArch {
+			info.Arch = ""
+		}
 		p, _ := nfpm.Get(f)
 		name := p.ConventionalFileName(info)
 		var buf bytes.Buffer
@@ -348,8 +408,8 @@ func checkC15(env *engine.Env, ci any) engine.Outcome {
 			viol("name:undecodable:"+f, "%v", err)
 			return out
 		}
-		want := nameFromMetadata(f, pkg)
-		if name != want {
+		want := nameFromMetadata(f, pkg, false)
+		if name != want && !(c.Cfg.Epoch == "" && strings.Contains(c.Cfg.Version, ":") && name == nameFromMetadata(f, pkg, true)) {
 			cls := "other"
 			_, pre, _ := c.Cfg.SplitVersion()
 			if pre != "" && strings.Replace(name, strings.ReplaceAll(pre, "-", "_"), "", 1) == want {
